@@ -18,9 +18,41 @@ import (
 
 var log = logging.Logger("autoconf")
 
-// writeOwnerOnlyFile writes data to a file with owner-only permissions (0600)
+// writeOwnerOnlyFile atomically writes data to a file with owner-only
+// permissions (0600). The data is written to a temporary file in the same
+// directory and then renamed over the destination, so a process that stops
+// mid-write never leaves a truncated file under the final name.
 func writeOwnerOnlyFile(filename string, data []byte) error {
-	return os.WriteFile(filename, data, filePermOwnerReadWrite)
+	// The temporary name neither ends in ".json" nor collides with metadata
+	// file names, so readers of the cache directory ignore it.
+	tmp, err := os.CreateTemp(filepath.Dir(filename), "."+filepath.Base(filename)+".tmp-*")
+	if err != nil {
+		return err
+	}
+	tmpName := tmp.Name()
+	cleanup := func(err error) error {
+		tmp.Close()
+		os.Remove(tmpName)
+		return err
+	}
+	if err := tmp.Chmod(filePermOwnerReadWrite); err != nil {
+		return cleanup(err)
+	}
+	if _, err := tmp.Write(data); err != nil {
+		return cleanup(err)
+	}
+	if err := tmp.Sync(); err != nil {
+		return cleanup(err)
+	}
+	if err := tmp.Close(); err != nil {
+		os.Remove(tmpName)
+		return err
+	}
+	if err := os.Rename(tmpName, filename); err != nil {
+		os.Remove(tmpName)
+		return err
+	}
+	return nil
 }
 
 const (
